@@ -2,7 +2,8 @@
    through the semantics of Model/Pyl.v, exactly the hand-written models of Model/Builtins.v and
    Model/Itertools.v: equal as world transformers, for every argument, consumer and world (sources, fault plan,
    use counter).  All theorems of Props/ about these models therefore hold of what the code says now.
-   The aggregations are in Proofs/PylEquivAgg.v. *)
+   The aggregations are in Proofs/PylEquivAgg.v; _zip_inner, _zip_inner_strict, zip and batched (fourth batch) are in
+   Proofs/PylEquivZip.v. *)
 From Coq Require Import List ZArith NArith Bool Arith String Lia.
 Import ListNotations.
 Require Import V.Kernel.Values V.Kernel.Monad V.Model.Builtins V.Model.Itertools V.Model.Heapq V.Model.Pyl V.Gen.PylSrc V.Proofs.PylRel V.Proofs.PylTac.
@@ -33,7 +34,7 @@ Definition fn_arg_add (f : option (list val -> val)) : callee :=
 Theorem src_filter_ok : forall f yield w,
   run_genfn src_filter [AFn (fn_arg f); AIter 0] yield w = a_filter f yield w.
 Proof.
-  intros f yield w. unfold run_genfn, src_filter, a_filter, each. apply orel_eq.
+  intros f yield w. rewrite run_genfn_noexc by reflexivity. unfold src_filter, a_filter, each. apply orel_eq.
   destruct f as [p|]; norm; gen_frame; apply scoped_rel; norm.
   - apply (bind_rel (exit_rel (fun (st1 : env * sig) (_ : unit) =>
                                  lookup "function" (e_fns (fst st1)) = Some (CUser 0 p)) any_rel));
@@ -53,7 +54,7 @@ Qed.
 Theorem src_enumerate_ok : forall start yield w,
   run_genfn src_enumerate [AIter 0; AVal (VInt start)] yield w = a_enumerate start yield w.
 Proof.
-  intros start yield w. unfold run_genfn, src_enumerate, a_enumerate. apply orel_eq.
+  intros start yield w. rewrite run_genfn_noexc by reflexivity. unfold src_enumerate, a_enumerate. apply orel_eq.
   norm. gen_frame. apply scoped_rel. norm.
   apply (bind_rel (exit_rel (fun (st1 : env * sig) (c : Z) =>
                                lookup "count" (e_vars (fst st1)) = Some (Some (VInt c))) any_rel)); [|trailing].
@@ -65,7 +66,7 @@ Qed.
 Theorem src_takewhile_ok : forall p yield w,
   run_genfn src_takewhile [AFn (CUser 0 p); AIter 0] yield w = a_takewhile p yield w.
 Proof.
-  intros p yield w. unfold run_genfn, src_takewhile, a_takewhile. apply orel_eq.
+  intros p yield w. rewrite run_genfn_noexc by reflexivity. unfold src_takewhile, a_takewhile. apply orel_eq.
   norm. gen_frame. apply scoped_rel. norm.
   apply (bind_rel (exit_rel (fun (st1 : env * sig) (_ : unit) =>
                                lookup "predicate" (e_fns (fst st1)) = Some (CUser 0 p)) any_rel)); [|trailing].
@@ -79,7 +80,7 @@ Qed.
 Theorem src_dropwhile_ok : forall p yield w,
   run_genfn src_dropwhile [AFn (CUser 0 p); AIter 0] yield w = a_dropwhile p yield w.
 Proof.
-  intros p yield w. unfold run_genfn, src_dropwhile, a_dropwhile, each. apply orel_eq.
+  intros p yield w. rewrite run_genfn_noexc by reflexivity. unfold src_dropwhile, a_dropwhile, each. apply orel_eq.
   norm. gen_frame. apply scoped_rel. norm.
   pose (inv := fun (sg : sig) (st1 : env * sig) (_ : unit) =>
                  lookup "predicate" (e_fns (fst st1)) = Some (CUser 0 p) /\
@@ -103,7 +104,7 @@ Qed.
 Theorem src_filterfalse_ok : forall f yield w,
   run_genfn src_filterfalse [AFn (fn_arg f); AIter 0] yield w = a_filterfalse f yield w.
 Proof.
-  intros f yield w. unfold run_genfn, src_filterfalse, a_filterfalse, each. apply orel_eq.
+  intros f yield w. rewrite run_genfn_noexc by reflexivity. unfold src_filterfalse, a_filterfalse, each. apply orel_eq.
   destruct f as [p|]; norm; gen_frame; apply scoped_rel; norm.
   - apply (bind_rel (exit_rel (fun (st1 : env * sig) (_ : unit) =>
                                  lookup "predicate" (e_fns (fst st1)) = Some (CUser 0 p)) any_rel));
@@ -125,7 +126,7 @@ Qed.
 Theorem src_starmap_ok : forall f yield w,
   run_genfn src_starmap [AFn (CUser 0 f); AIter 0] yield w = a_starmap f yield w.
 Proof.
-  intros f yield w. unfold run_genfn, src_starmap, a_starmap, each. apply orel_eq.
+  intros f yield w. rewrite run_genfn_noexc by reflexivity. unfold src_starmap, a_starmap, each. apply orel_eq.
   norm. gen_frame. apply scoped_rel. norm.
   apply (bind_rel (exit_rel (fun (st1 : env * sig) (_ : unit) =>
                                lookup "function" (e_fns (fst st1)) = Some (CUser 0 f)) any_rel)); [|trailing].
@@ -139,7 +140,7 @@ Qed.
 Theorem src_pairwise_ok : forall yield w,
   run_genfn src_pairwise [AIter 0] yield w = a_pairwise yield w.
 Proof.
-  intros yield w. unfold run_genfn, src_pairwise, a_pairwise. apply orel_eq.
+  intros yield w. rewrite run_genfn_noexc by reflexivity. unfold src_pairwise, a_pairwise. apply orel_eq.
   norm. gen_frame. apply scoped_rel. norm.
   apply bind_same. intros [first|] w1; norm.
   - apply (bind_rel (exit_rel (fun (st1 : env * sig) (prev : val) =>
@@ -153,7 +154,7 @@ Qed.
 Theorem src_accumulate_ok : forall f initial yield w,
   run_genfn src_accumulate [AIter 0; AFn (fn_arg_add f); AOpt initial] yield w = a_accumulate f initial yield w.
 Proof.
-  intros f initial yield w. unfold run_genfn, src_accumulate, a_accumulate. apply orel_eq.
+  intros f initial yield w. rewrite run_genfn_noexc by reflexivity. unfold src_accumulate, a_accumulate. apply orel_eq.
   pose (inv := fun (st1 : env * sig) (v : val) =>
                  lookup "function" (e_fns (fst st1)) = Some (fn_arg_add f) /\
                  lookup "value" (e_vars (fst st1)) = Some (Some v)).
@@ -186,7 +187,7 @@ Qed.
 Theorem src_map_ok : forall f ss yield w,
   run_genfn src_map [AFn (CUser 0 f); AIters ss] yield w = a_map f ss yield w.
 Proof.
-  intros f ss yield w. unfold run_genfn, src_map, a_map. apply orel_eq.
+  intros f ss yield w. rewrite run_genfn_noexc by reflexivity. unfold src_map, a_map. apply orel_eq.
   norm. gen_frame. apply orel_any_of_eq, a_zip_cong. intros xs w1 _. norm.
   apply mbind_cong_r. intros r w2. norm. apply mbind_unit_end. intros u w3. norm. reflexivity.
 Qed.
@@ -194,7 +195,7 @@ Qed.
 Theorem src_compress_ok : forall yield w,
   run_genfn src_compress [AIter 0; AIter 1] yield w = a_compress yield w.
 Proof.
-  intros yield w. unfold run_genfn, src_compress, a_compress. apply orel_eq.
+  intros yield w. rewrite run_genfn_noexc by reflexivity. unfold src_compress, a_compress. apply orel_eq.
   norm. gen_frame. apply scoped_rel. norm. apply scoped_rel. norm.
   apply bind_rel_l with (R := any_rel); [|intros ? ? ? _; apply orel_ret; exact I].
   apply orel_any_of_eq, zip_inner_cong. intros xs w1 Hlen.
@@ -207,7 +208,7 @@ Theorem src_islice_ok : forall start stop step yield w,
   run_genfn src_islice [AIter 0; AVal (VInt start); AVal (match stop with None => VNone | Some s => VInt s end); AVal (VInt step)] yield w
   = a_islice start stop step yield w.
 Proof.
-  intros start stop step yield w. unfold run_genfn, src_islice, a_islice. apply orel_eq.
+  intros start stop step yield w. rewrite run_genfn_noexc by reflexivity. unfold src_islice, a_islice. apply orel_eq.
   pose (envok := fun en : env =>
           lookup "start" (e_vars en) = Some (Some (VInt start)) /\
           lookup "stop" (e_vars en) = Some (Some (match stop with None => VNone | Some s => VInt s end)) /\
